@@ -10,6 +10,7 @@ MEMBER_KW = ["struct", "tag", "int32", "stream", "module", "Sequence", "compact"
 
 def decorate(rng, prog):
     """identifiers that collide with keywords (members only, so references stay valid) and simple doc comments"""
+    op_names = {o["name"] for f in prog["files"] for d in f["defs"] for o in d.get("ops", [])}
     for f in prog["files"]:
         for d in f["defs"]:
             if rng.random() < 0.3:
@@ -33,7 +34,8 @@ def decorate(rng, prog):
                     if rng.random() < 0.1:
                         o["doc"] = [" o"]
             for g in groups:
-                used = {m["name"] for m in g}
+                # operation names must stay distinct across the whole program (an inherited operation may not be redeclared)
+                used = op_names if (d["kind"] == "interface" and g is d["ops"]) else {m["name"] for m in g}
                 for m in g:
                     if rng.random() < 0.12:
                         k = rng.choice(MEMBER_KW)
